@@ -3,7 +3,7 @@ import collections
 
 import numpy as np
 
-from vlib import probe
+from vlib import gen, probe
 from vlib.probe import COL
 
 ID = "C06"
@@ -289,6 +289,9 @@ def run_case(case):
                 probe.attempt(nu.match, a1[0].item() if a1.dtype.kind != "S" else a1[0], a2)
             return
         probe.attempt(nu.match, a1, a2)
+        if a1.ndim == 1 and a2.ndim == 1 and rng.random() < .3:
+            # the same request with both arrays as non-contiguous views (judged by the wrapper on its own values)
+            probe.attempt(nu.match, gen.as_view(rng, a1)[0], gen.as_view(rng, a2)[0])
         if fam == "match-mixed":
             probe.attempt(nu.match, np.sort(a1), a2, presorted=True)
             return
@@ -336,7 +339,7 @@ def run_case(case):
     if fam == "unique":
         COL.sample({"family": fam, "arr": arr[:8].tolist()}, limit=8)
         probe.attempt(nu.unique, arr)
-        probe.attempt(nu.unique, arr, values=True)
+        probe.attempt(nu.unique, gen.maybe_view(rng, arr), values=True)
     else:
         fk = int(rng.integers(0, 8))
         if fk == 0:
@@ -357,4 +360,4 @@ def run_case(case):
         else:
             flag = rng.integers(0, 4, size=n)
         probe.attempt(nu.rem_dup, arr, flag)
-        probe.attempt(nu.rem_dup, arr, flag, values=True)
+        probe.attempt(nu.rem_dup, gen.maybe_view(rng, arr), gen.maybe_view(rng, np.asarray(flag)), values=True)
